@@ -257,6 +257,10 @@ async fn scenario(sim: Arc<Sim>, unit: Value) -> Obs {
     for (i, how) in calls.iter().enumerate() {
         let id = format!("x{i}");
         let mut spec = RpcSpec::new(&id).route("/x").body(pattern_body(i as u64, body_len));
+        if let Some(n) = unit["resp_len"].as_u64() {
+            // a response of several flights: the call can be abandoned while it is arriving
+            spec = spec.header("resp-len", format!("{n}"));
+        }
         if deadline == "header" {
             spec = spec.header("timeout", "5000000000");
         }
@@ -422,6 +426,11 @@ impl Check for C12 {
                         u.push(json!({"kind":"point","reverse":reverse,"handler":handler,"body_len":20,"abandons":[p.clone()],"deadline":deadline,"bound":bound,"fate_budget":12}));
                     }
                 }
+            }
+            // small request, 200 KiB response, instant handler: abandon while the response arrives
+            // (the caller's datagrams are then acknowledgements)
+            for n in (2..=tier.pick(40, 90)).step_by(tier.pick(2, 1)) {
+                u.push(json!({"kind":"point","reverse":reverse,"handler":"instant","body_len":20,"resp_len":200*1024,"abandons":[ab("datagrams", n)],"bound":0,"fate_budget":0}));
             }
             // 200 KiB request: several flights; abandon after every n-th datagram
             let max_n = tier.pick(120, 230);
